@@ -58,11 +58,20 @@ def d1(cx: Cx, ob: Ob) -> None:
                             kind = "a shallow copy of a record" if tg[1] == "S" else "a record"
                             ob.violate(fn.qualname, where(fn, ev.line), f"{fn.name} mutates list field `{tg[3]}` of {kind} of input `{tg[2]}` in place (.{callee_name(c)})", detail=f"mutate:{tg[3]}")
                     # helper that mutates its Record parameter
-                    if op(c[1]) == "func" and c[1][1] in pm:
-                        callee = cx.model.functions[c[1][1]]
-                        b = bind_args(callee, c)
+                    callee_q = c[1][1] if op(c[1]) == "func" else None
+                    recv_ = None
+                    if callee_q is None and op(c[1]) == "attr":
+                        # a (static) method reached through the class or through a converter object
+                        holder = c[1][1]
+                        if op(holder) == "cls" and f"{holder[1]}.{c[1][2]}" in pm:
+                            callee_q = f"{holder[1]}.{c[1][2]}"
+                        elif f"curies.api.Converter.{c[1][2]}" in pm and (o.tag(holder) or (None,))[0] in ("CB", "CF"):
+                            callee_q, recv_ = f"curies.api.Converter.{c[1][2]}", holder
+                    if callee_q is not None and callee_q in pm:
+                        callee = cx.model.functions[callee_q]
+                        b = bind_args(callee, c, recv=recv_)
                         if b:
-                            for pname in pm[c[1][1]]:
+                            for pname in pm[callee_q]:
                                 tg = o.tag(b.get(pname))
                                 if tg is not None and tg[0] in ("B",):
                                     ob.violate(fn.qualname, where(fn, ev.line), f"{fn.name} passes a Record of input `{tg[1]}` to {callee.name}, which mutates it", detail=f"mutating-callee:{callee.name}")
